@@ -8,9 +8,9 @@ import common as C
 
 PID = "C10"
 DRIVER = [("C10", "TfPwaV.Gen.PhspF", "PhspF.handle")]
-LEAN_TARGETS = ["TfPwaV.Props.C10", "TfPwaV.Props.C10b", "TfPwaV.Props.C10c", "TfPwaV.Props.C10d", "TfPwaV.Gen.PhspF", "TfPwaV.Gen.KinF"]
-PROP_MODULES = ["TfPwaV.Props.C10", "TfPwaV.Props.C10b", "TfPwaV.Props.C10c", "TfPwaV.Props.C10d"]
-ALL_MODULES = ["TfPwaV.Proofs.Phsp", "TfPwaV.Proofs.PhspMom", "TfPwaV.Proofs.PhspTree", "TfPwaV.Proofs.PhspShell", "TfPwaV.Proofs.PhspOpt", "TfPwaV.Proofs.PhspChain", "TfPwaV.Props.C10", "TfPwaV.Props.C10b", "TfPwaV.Props.C10c", "TfPwaV.Props.C10d", "TfPwaV.Proofs.Kin", "TfPwaV.Proofs.ScalarR", "TfPwaV.Props.C20f", "TfPwaV.Proofs.Sampler"]
+LEAN_TARGETS = ["TfPwaV.Props.C10", "TfPwaV.Props.C10b", "TfPwaV.Props.C10c", "TfPwaV.Props.C10d", "TfPwaV.Props.C10e", "TfPwaV.Gen.PhspF", "TfPwaV.Gen.KinF"]
+PROP_MODULES = ["TfPwaV.Props.C10", "TfPwaV.Props.C10b", "TfPwaV.Props.C10c", "TfPwaV.Props.C10d", "TfPwaV.Props.C10e"]
+ALL_MODULES = ["TfPwaV.Proofs.Phsp", "TfPwaV.Proofs.PhspMom", "TfPwaV.Proofs.PhspTree", "TfPwaV.Proofs.PhspShell", "TfPwaV.Proofs.PhspOpt", "TfPwaV.Proofs.PhspChain", "TfPwaV.Props.C10", "TfPwaV.Props.C10b", "TfPwaV.Props.C10c", "TfPwaV.Props.C10d", "TfPwaV.Props.C10e", "TfPwaV.Proofs.Kin", "TfPwaV.Proofs.ScalarR", "TfPwaV.Props.C20f", "TfPwaV.Proofs.Sampler"]
 ASSUMPTIONS = [
     "uniform random numbers are an INPUT of the model (lists of draws, one per tf.random.uniform call); the harness replaces tf.random.uniform in its own process by a seeded stream and feeds the same numbers to the Float instance of templates/Phsp.lean.in",
     "theorems are over the reals for the model with r32 = id, i.e. get_p evaluated in double precision for Python-float arguments (the tree after fix_getp_float32.diff); on a tree where get_p rounds p2 through float32 the Float model reproduces that rounding (observed by the harness) and the deviation is reported by the search under the key get_p:float32-python-scalars",
@@ -21,7 +21,7 @@ ASSUMPTIONS = [
     "accepted density: accept_count_grid / accepted_density are measure-free counting statements on the uniform grid j/K (reusing grid_count / accept_fraction of Props/C20f.lean); that tf.random.uniform is uniform and independent is NOT proved (chi^2 tests)",
     "NOT proved, validated only: termination of the refill loop with probability 1; statistical flatness of the accepted sample (chi^2 tests of the Dalitz plot and of mass spectra against independently integrated phase-space spectra, false-alarm probability <= 1e-9 per test in the chi^2 approximation); IEEE rounding (double-precision clauses are checked on the implementation with stated tolerances)",
     "mass_generator[i] (user-supplied proposal for the i-th intermediate mass, used by config_loader/sample.py to importance-sample resonances) is outside the model: the code draws M_{i+1} from an arbitrary user distribution g_i and mass_importances applies NO 1/g_i correction (the `else: pass` branch), so by design the accepted events follow prod q_i * prod g_i, not flat phase space; the consumer reweights. What still applies: weight_le_one holds for ANY mass point of the domain M_i + r_{i+1} <= M_{i+1} <= b_i however it was drawn (a user generator that leaves [a,b] is not covered); momentum_sum / on_shell do not depend on how masses were drawn",
-    "cal_max_weight() DECIDED (round 4): it is reachable only through opt-in arguments - generate_phsp(cal_max=True), generate_phsp_p(cal_max=True), generate_toy(cal_phsp_max=True), generate_toy_p(cal_phsp_max=True), AfterGenerator/ChainGenerator.cal_max_weight() called by the user (all defaults False; grep over /repo: no other caller, only tests pass True) - so it stays OUT of the default alarm set. On those paths a weight above the returned maximum DOES occur on the implementation: PhaseSpaceGenerator(3.0, [0.1,0.2,0.3,0.4,0.5,0.1]).cal_max_weight() with the harness stream Philox(2) shrinks wtMax 1.496 -> 3.9e-8 and 75% of the weights of generate(20000, flatten=False) exceed 1 (max 5.7e4), while streams 1 and 3 give max weight 0.98 (L-BFGS-B, absolute pgtol 1e-5 on a function of size <= 1e-3, stops at its random start). Model: m_wtMax *= 1.001 * get_weight(x*) with the point x* returned by scipy.optimize.minimize as a PARAMETER (calWtMax, getWeightCal; correspondence feeds the recorded x*). Proved: it only rescales the weight (calmax_rescales) and weight <= 1 afterwards IFF x* is within 0.1% of the global maximum (calmax_weight_le_one_iff), explicit counter-example for a non-optimal x* (calmax_weight_exceeds_one_example); set_decay's own wtMax is already a proven bound (weight_le_one), so cal_max_weight can only trade safety for efficiency. Candidate finding key cal_max_weight:weight-range; VERIF_C10_CALMAX=1 adds the scan to the search",
+    "cal_max_weight() (reached through generate_phsp(cal_max=True), generate_phsp_p(cal_max=True), generate_toy(cal_phsp_max=True), generate_toy_p(cal_phsp_max=True), ChainGenerator.cal_max_weight()): on the pinned tree it maximised the weight with L-BFGS-B from ONE random start in unscaled mass coordinates and m_wtMax could shrink below weights that occur (PhaseSpaceGenerator(3.0, [0.1,0.2,0.3,0.4,0.5,0.1]), harness stream Philox(2): wtMax 1.496 -> 3.9e-8, 75% of the weights of generate(20000, flatten=False) above 1) - a violation of the weight clause on a public option, repaired by a fix commit in /repo (best point of a random sample as start, coordinates scaled to the mass ranges, gradient + simplex search, never below the best sampled weight; key cal_max_weight:weight-range, kind fixed). Model: m_wtMax *= 1.001 * get_weight(xopt) with xopt a PARAMETER (calWtMax, getWeightCal); the harness observes which variant the tree has (relative objective f(x0) = -1 or not) and passes as xopt the point that attains the maximum (unrepaired: the single optimiser answer; repaired: best of the sample's best point and the two optimisers' answers, mapped back from the scaled coordinates). Proved: calmax_rescales, calmax_weight_le_one_iff (weight <= 1 afterwards IFF xopt is within 0.1% of the global maximum - the optimisers stay parameters), calmax_weight_exceeds_one_example, and for the repaired routine calmax_best_of_candidates (Props/C10e.lean: no candidate - no point of the routine's own sample, no optimiser answer - ends above 1/1.001), calmax_single_start_not_best. The scan of the weights after cal_max_weight() (deterministic many-body / near-threshold / heavy-before-light mass sets + seeded sets, corners, edges, random points, generate(flatten=False)) runs on every run",
 ]
 
 MASS_CHOICES = [0.0, 0.000511, 0.139, 0.493, 0.938, 1.5]
@@ -1217,6 +1217,6 @@ def to_tuple(x):
 
 MANIFEST = {
     "text": "Lean theorems over the reals about the model of tf_pwa.phasespace (templates/Phsp.lean.in, instantiated at R for proofs and at Float for execution): get_p is increasing in M and decreasing in a daughter mass above threshold and is 0 in the clamp branch (q_monotone_M, q_monotone_a, q_clamped); for EVERY number of bodies, all non-negative masses with positive Q value and every mass point generate_mass can produce, 0 <= acceptance weight <= 1 with or without importance factor (weight_le_one, weight_le_one_generated; list induction), while on the bare mass_range box the bound is false (weight_exceeds_one_off_domain); proposal density x weight = C * prod q_i (flat_density); if generate(N) returns it returns exactly N events for every stream of draws and every refill guess (exact_count, refill_enough); the momenta of every generated event add up to (m0,0,0,0) and every particle is on its mass shell (momentum_sum, on_shell, two_body_energy; regular boost branch for the shell clause) and for nested chains of ANY nesting the final-state momenta add up to (m0,0,0,0) when every node's generator output does (chain_momentum_sum, structural induction over the struct; chain_consumes; tree_boost_sum/_shell/_leaves), and, when in addition the outputs are on the daughters' mass shells and every nested daughter's boost is in the regular branch, every final particle is on its mass shell and every intermediate state sits on its fixed mass shell and equals the sum of the momenta below it (chain_structure, chain_on_shell, chain_intermediate_mass; structural induction, every nesting); the optional cal_max_weight() only rescales the weight by 1/(1.001 weight(x*)) and keeps it <= 1 iff the optimiser's point x* is within 0.1% of the maximum (calmax_rescales, calmax_weight_le_one_iff, calmax_weight_exceeds_one_example). Round 4 (Props/C10c.lean, C10d.lean): nested chains IN FULL for the composition _restruct_pi o generate_momentum (chain_on_shell_full: for every struct and every per-node input in the code's regime, every final and every intermediate particle is on its mass shell and momenta add up at every vertex; the GoodNode hypothesis of chain_structure is discharged by momentum_sum, on_shell and the new generated_energy_positive / boost_keeps_energy_positive); exact count on EVERY keyword path of generate(N, force, flatten, importances) (exact_count_all_paths: exactly N events if force or flatten=False or two-body, at most N for force=False, N weights for flatten=False; generateOpt_default ties the default path to exact_count), for ChainGenerator.generate (exact_count_chain, chain_run_counts) and applications.gen_mc (gen_mc_rows); the weight numerator obeys the phase-space recursion R_n(m0; m1, rest; .., M) = R_{n-1}(M; rest; ..) q(m0; M, m1) for every n and equals the textbook recursive spectrum (weight_recursion, weight_is_lips, flat_density_lips); accept/reject is a pointwise thinning (accept_iff, accepted_rows) whose accepted fraction on the K-grid of uniforms is exactly ceil(K weight) because 0 <= weight <= 1, so proposal x accepted fraction is within proposal/K of C * R_n (accept_count_grid, accepted_density; reuses grid_count of C20f). The same text, fed the uniform numbers recorded from a patched tf.random.uniform, is compared with PhaseSpaceGenerator / generate_phsp (masses, importances, weights, accept/refill sequence, momenta, nested chains) and, new, with generate(N, force, flatten, importances) on all six non-default keyword combinations and applications.gen_mc. Flatness of the accepted sample and termination of the refill loop are validated statistically, not proved.",
-    "note": "Model = templates/Phsp.lean.in (imports the boost of templates/Kin.lean.in): get_p (3 variants: tensor, Python-float M, all Python floats, with the float32 rounding of an unfixed tree selectable by a flag the harness observes), set_decay/wtMax, get_mass_range, generate_mass, mass_importances, get_weight, flatten_mass, refill loop incl. the n_iter2 guess formula, generate_momentum(_i), _get_generator/_restruct_pi/tree_boost. Uniform numbers are an input (list of draws, one per tf.random.uniform call, shape-checked). Correspondence: n = 2..6, massless and near-threshold daughters (Q down to 1e-7 relative), corner uniforms 0 and 1-2^-53, N in {1,7,1000(,5000)}, nested structs to depth 4; tolerance 1e-12..1e-13 x (1 + m0/Q) relative to m0 (1e-7 on exact corners of the mass range where q is the root of a rounding-level number). Search (model independent, on the implementation): exact count and shapes, |p^2-m^2| and |sum p-(m0,0,0,0)| <= 2e-13 (1+gamma^2), nested intermediate masses, weights in [0,1] on random + corner/edge scans of the uniform cube, chi^2 tests of the 3-body Dalitz plot (uniformised through the analytic marginal) and of m(i,j) spectra for n = 4..6 against numerically integrated recursive phase-space spectra, alarm threshold p < 1e-9 per test. Finding (fixed in /repo): get_p passed Python-float arguments through float32 (energy conserved only to ~1e-8 m0), key get_p:float32-python-scalars. cal_max_weight() is modelled with the scipy optimiser's returned point as a parameter (recorded and fed to the model); that the optimiser finds the global maximum is not verified and often false on the implementation (candidate finding cal_max_weight:weight-range, opt-in scan VERIF_C10_CALMAX=1, default paths never call it). Round 4: generateOpt / genMc added to the template (ops geno, genmc), search case `keywords` checks the count contract, weight range and event physics of the non-default keyword paths on the implementation. cal_max_weight DECIDED: only opt-in arguments (cal_max / cal_phsp_max, default False) reach it; a weight above the returned maximum does occur there (6-body example in ASSUMPTIONS: 75% of weights > 1), kept as candidate finding outside the default alarm set. Observation (opt-in path, not alarmed): generate(importances=False) applies the importance factor in refill batches anyway. Not proved: the regular-branch / ordering hypotheses of chain_on_shell_full are hypotheses (the code's regime), not derived from the uniform stream; the link between chainGenerate's per-event rows and generateMomentum is by definition of momentaB (momenta_are_per_event) but the end-to-end statement is not quantified over the draw stream. Not modelled: user-supplied mass_generator[i] proposals (no 1/g correction in the code by design; weight_le_one still covers any mass point inside the domain).",
+    "note": "Model = templates/Phsp.lean.in (imports the boost of templates/Kin.lean.in): get_p (3 variants: tensor, Python-float M, all Python floats, with the float32 rounding of an unfixed tree selectable by a flag the harness observes), set_decay/wtMax, get_mass_range, generate_mass, mass_importances, get_weight, flatten_mass, refill loop incl. the n_iter2 guess formula, generate_momentum(_i), _get_generator/_restruct_pi/tree_boost. Uniform numbers are an input (list of draws, one per tf.random.uniform call, shape-checked). Correspondence: n = 2..6, massless and near-threshold daughters (Q down to 1e-7 relative), corner uniforms 0 and 1-2^-53, N in {1,7,1000(,5000)}, nested structs to depth 4; tolerance 1e-12..1e-13 x (1 + m0/Q) relative to m0 (1e-7 on exact corners of the mass range where q is the root of a rounding-level number). Search (model independent, on the implementation): exact count and shapes, |p^2-m^2| and |sum p-(m0,0,0,0)| <= 2e-13 (1+gamma^2), nested intermediate masses, weights in [0,1] on random + corner/edge scans of the uniform cube, chi^2 tests of the 3-body Dalitz plot (uniformised through the analytic marginal) and of m(i,j) spectra for n = 4..6 against numerically integrated recursive phase-space spectra, alarm threshold p < 1e-9 per test. Finding (fixed in /repo): get_p passed Python-float arguments through float32 (energy conserved only to ~1e-8 m0), key get_p:float32-python-scalars. cal_max_weight() is modelled with the optimisers' best point as a parameter (recorded and fed to the model); that they find the global maximum is not verified; the pinned tree's single-start version violated the weight clause (finding cal_max_weight:weight-range, repaired by a fix commit, the scan after cal_max_weight() now runs by default). Round 4: generateOpt / genMc added to the template (ops geno, genmc), search case `keywords` checks the count contract, weight range and event physics of the non-default keyword paths on the implementation. cal_max_weight: a weight above the returned maximum occurred on the cal_max / cal_phsp_max paths of the pinned tree (6-body example in ASSUMPTIONS: 75% of weights > 1); repaired in /repo, calmax_best_of_candidates proved for the repaired routine. Observation (opt-in path, not alarmed): generate(importances=False) applies the importance factor in refill batches anyway. Not proved: the regular-branch / ordering hypotheses of chain_on_shell_full are hypotheses (the code's regime), not derived from the uniform stream; the link between chainGenerate's per-event rows and generateMomentum is by definition of momentaB (momenta_are_per_event) but the end-to-end statement is not quantified over the draw stream. Not modelled: user-supplied mass_generator[i] proposals (no 1/g correction in the code by design; weight_le_one still covers any mass point inside the domain).",
     "technique": "Lean 4 proof over the reals (list induction, polynomial certificates, C11 boost invariance) of one template instantiated at Float for differential correspondence on a harness-fed random stream; statistical validation of flatness",
 }
